@@ -227,3 +227,18 @@ pub fn record(args: &[String]) {
     }
     out.flush();
 }
+
+/// lex-observe <ndjson with a "text" field (escaped)> --out <file>: tokenizer records for given texts (C05 lexical corruptions).
+pub fn observe_file(args: &[String]) {
+    silence_panics();
+    verif_hooks::init();
+    let recs = read_ndjson(&args[0]);
+    let mut out = Out::new(arg_value(args, "--out").as_deref());
+    for r in recs {
+        let s = unesc(r["text"].as_str().unwrap_or(""));
+        let mut o = observe(&s);
+        o["chars"] = string_to_cps(&s);
+        out.line(&o);
+    }
+    out.flush();
+}
